@@ -438,7 +438,7 @@ def replay(o):
 from .. import assume as A
 
 INFO = dict(
-    assumptions=A.S_COMMON, trusted_base=A.TRUSTED, min_obligations=500,
+    assumptions=A.S_COMMON + [A.A13], trusted_base=A.TRUSTED, min_obligations=500,
     explanation="C01: contracts on the evaluation chain, callees inlined (each function also has its own contract, so a defect is "
                 "reported at the innermost function whose contract fails).",
     functions=["heavy.ImmutableKnotVector.__span_single (V)", "heavy.ImmutableKnotVector.__valid_single (V)",
